@@ -21,7 +21,12 @@ ASSUMPTIONS = [
     "within a condition-aware tolerance 5e-13*(|a|+|b|) + 2e-14*(1+1/|lmbda_eff|)",
     "theorems are over the reals; IEEE effects (saturation of exp/pow, e.g. Manly(lmbda<0).normalize(50) landing "
     "exactly on the range boundary) are outside the model and excluded from the search by conditioning guards",
-    "Normalizer.fit (scipy minimiser) is not modelled; only sanity-checked as a local maximum of loglikelihood",
+    "Normalizer.fit / __init__(data=...): the parameter bookkeeping (sorted names, skip, what the objective writes into "
+    "the object, what is written back, the returned dict, the default bracket / x0) is modelled with the optimiser as a "
+    "parameter (any sequence of trial points and any result x) and tied by replacing scipy.optimize inside "
+    "normalizer/base.py with a scripted optimiser; that scipy's minimize_scalar / minimize return a minimiser is NOT "
+    "proved: the search compares real fits with an independent brute-force maximisation whenever the optimiser reports "
+    "success and no datum is out of range at the fitted parameters",
     "eval_func / shape handling of callable mean and trend is re-derived by the harness (callable evaluated on "
     "the position tuple resp. the 'ij' meshgrid), not modelled in Lean",
 ]
@@ -351,6 +356,355 @@ def corr_pipeline(ctx, rng, out):
                                        real=np.asarray(app).ravel()[:3].tolist(), model=unbits(r[0])[:3].tolist()))
 
 
+# ------------------------------------------------------------------------------------------ fit bookkeeping
+DOC_PARAMS = {"Normalizer": {}, "LogNormal": {}, "BoxCox": {"lmbda": 1}, "BoxCoxShift": {"shift": 0, "lmbda": 1},
+              "YeoJohnson": {"lmbda": 1}, "Modulus": {"lmbda": 1}, "Manly": {"lmbda": 1}}
+
+
+class ScriptedOptimiser:
+    """stands in for `scipy.optimize` inside normalizer/base.py: evaluates the objective at the scripted trial points,
+    records what it was handed / what the objective returned / the object's parameters after every evaluation, and
+    returns a result object with the prescribed `x`"""
+
+    def __init__(self):
+        self.calls = []
+        self.script = None      # (trials, x, observer)
+
+    def _run(self, route, fun, args, kw):
+        trials, x, observe = self.script
+        rec = dict(route=route, kw=dict(kw), args=args, values=[], states=[])
+        self.calls.append(rec)
+        for t in trials:
+            par = float(t[0]) if route == 1 else np.array(t, dtype=float)
+            with warnings.catch_warnings():
+                warnings.simplefilter("ignore")
+                with np.errstate(all="ignore"):
+                    rec["values"].append(float(fun(par, *args)))
+            rec["states"].append(observe())
+        import types
+        out = types.SimpleNamespace(x=(float(x[0]) if route == 1 else np.array(x, dtype=float)), success=True, fun=0.0)
+        rec["out"] = out
+        return out
+
+    def minimize_scalar(self, fun, args=(), **kw):
+        return self._run(1, fun, args, kw)
+
+    def minimize(self, fun, args=(), **kw):
+        return self._run(2, fun, args, kw)
+
+
+def user_class(names, defaults):
+    """a user-defined normalizer (documented extension point: subclass with `default_parameter`)"""
+    from gstools.normalizer import Normalizer
+
+    class UserNorm(Normalizer):
+        default_parameter = dict(zip(names, defaults))
+
+        def _normalize(self, data):
+            return data * 1.0
+
+        def _denormalize(self, data):
+            return data * 1.0
+    return UserNorm
+
+
+def rand_names(rng, k):
+    pool = ["a", "b", "B", "_c", "a1", "ab", "lmbda", "shift", "Z", "z", "a_", "A", "beta", "alpha", "x0", "k2", "k10"]
+    return [str(v) for v in rng.choice(pool, size=k, replace=False)]
+
+
+def skip_variants(rng, names):
+    """every subset of the names; some with unknown names, duplicates, a tuple instead of a list, None for empty"""
+    out = []
+    for m in range(2 ** len(names)):
+        sub = [n for i, n in enumerate(names) if m >> i & 1]
+        out.append(sub)
+        r = rng.rand()
+        if r < 0.3:
+            out.append(sub + ["nope"])
+        elif r < 0.5 and sub:
+            out.append(tuple(sub[::-1] + sub[:1]))
+    out.append(None)
+    return out
+
+
+def fit_values(rng, kind, name, xmin):
+    """a plausible value for a parameter (keeps most data in range, sometimes not)"""
+    if name == "shift":
+        return float(-xmin + rng.choice([0.25, 1.0, 3.5])) if rng.rand() < 0.85 else float(-xmin - 0.5)
+    if rng.rand() < 0.3:
+        return float(rng.choice([0.0, 2.0, 1.0, -1.0, 1e-9, 0.5]))
+    return float(rng.uniform(-2, 3))
+
+
+def corr_fit(ctx, rng, out):
+    """Normalizer.fit / __init__(data=...) / remove_trend_norm_mean(fit_normalizer=True) / Krige(fit_normalizer=True)
+    with `scipy.optimize` of normalizer/base.py replaced by a scripted optimiser, against Model.Norm.fit"""
+    import gstools as gs
+    import gstools.normalizer as N
+    import gstools.normalizer.base as nb
+    from gstools.normalizer import remove_trend_norm_mean
+    dis, dist = out["disagreements"], out["distribution"]
+    for kind, want in DOC_PARAMS.items():
+        got = dict(getattr(N, kind).default_parameter)
+        if got != want or list(got) != list(want):
+            dis.append(dict(what=f"fit:default_parameter:{kind}", real=got, model=want))
+    cases = []
+    reps = ctx.scale(6, 20)
+    for rep in range(reps):
+        for kind in KINDS:
+            names = sorted(DOC_PARAMS[kind])
+            for skip in skip_variants(rng, names):
+                for route in ("fit", "init", "tools", "krige"):
+                    if route != "fit" and (skip is not None or rng.rand() < 0.5):
+                        continue            # the other entry points have no `skip`
+                    cases.append((kind, skip, route))
+    nuser = ctx.scale(200, 1000)
+    for t in range(nuser):
+        cases.append(("user", None, "fit" if t % 4 else "init"))
+    stub = ScriptedOptimiser()
+    orig = nb.spo
+    ops, meta = [], []
+    nb.spo = stub
+    try:
+        for (kind, skip, route) in cases:
+            n = int(rng.randint(3, 14))
+            if kind == "user":
+                decl = rand_names(rng, int(rng.randint(1, 5)))
+                defaults = [float(v) for v in rng.choice([0.0, 1.0, -1.5, 2.25, 0.5], size=len(decl))]
+                cls = user_class(decl, defaults)
+                sk = skip_variants(rng, sorted(decl))
+                skip = sk[int(rng.randint(0, len(sk)))] if route == "fit" else None
+                data = rng.uniform(-2, 2, size=n)
+                xmin = float(data.min())
+            else:
+                cls = getattr(N, kind)
+                decl = list(DOC_PARAMS[kind])
+                defaults = [float(DOC_PARAMS[kind][k]) for k in decl]
+                if kind in ("LogNormal", "BoxCox", "BoxCoxShift"):
+                    data = np.exp(rng.uniform(-2, 1.5, size=n)) - (float(rng.choice([0.0, 1.5, -2.0])) if kind == "BoxCoxShift" else 0.0)
+                else:
+                    data = rng.uniform(-2, 2, size=n)
+                xmin = float(data.min())
+            allnames = sorted(decl)
+            sk_list = [] if skip is None else list(skip)
+            free = [k for k in allnames if k not in sk_list]
+            # start parameters: given by keyword (constructor) or not
+            given = {k: fit_values(rng, kind, k, xmin) for k in decl if rng.rand() < 0.7}
+            if rng.rand() < 0.3:
+                given["not_a_parameter"] = 3.0
+            nfree = len(free)
+            ntr = int(rng.randint(0, 5))
+            def vec():
+                m = nfree
+                if nfree > 1 and rng.rand() < 0.1:
+                    m = int(rng.randint(1, nfree + 2))      # zip() truncation of a vector of the wrong length
+                return [fit_values(rng, kind, free[i] if i < nfree else "", xmin) for i in range(max(m, 1))]
+            trials = [vec() for _ in range(ntr)]
+            x = vec()
+            if route in ("tools", "krige"):
+                # the pipeline normalises with the fitted parameters afterwards: keep them benign
+                x = [fit_values(rng, kind, k, xmin) if k != "shift" else float(-xmin + 1.0) for k in free] or [0.0]
+            kw = {}
+            if route == "fit":
+                if nfree == 1 and rng.rand() < 0.4:
+                    kw["bracket"] = (float(rng.uniform(-1, 0)), float(rng.uniform(0.5, 3)))
+                if nfree > 1 and rng.rand() < 0.4:
+                    kw["x0"] = [float(v) for v in rng.uniform(-1, 2, size=nfree)]
+                if rng.rand() < 0.3:
+                    kw["tol"] = 1e-6
+            trend = np.zeros(n)
+            case = dict(kind=kind, names=decl, skip=None if skip is None else list(skip), route=route, given=given,
+                        trials=trials, x=x, kwargs={k: v for k, v in kw.items()})
+            stub.calls.clear()
+            holder = {}
+            stub.script = (trials, x, lambda: [float(getattr(holder["nz"], k)) for k in allnames])
+            real = dict(exc=None)
+            try:
+                with warnings.catch_warnings(record=True) as wlist:
+                    warnings.simplefilter("always")
+                    with np.errstate(all="ignore"):
+                        if route == "fit":
+                            nz = cls(**given)
+                            holder["nz"] = nz
+                            ret = nz.fit(data, **({} if skip is None else {"skip": skip}), **kw)
+                            real["opti_is_out"] = (nz._opti is stub.calls[-1]["out"]) if stub.calls else (nz._opti is None)
+                        elif route == "init":
+                            # __init__ calls fit() before it returns: the observer reaches the object through the bound objective
+                            holder["nz"] = None
+                            orig_fit = cls.fit
+                            def spy(self, *a, **k):
+                                holder["nz"] = self
+                                holder["ret"] = orig_fit(self, *a, **k)
+                                return holder["ret"]
+                            own = "fit" in cls.__dict__
+                            cls.fit = spy
+                            try:
+                                nz = cls(data, **given)
+                            finally:
+                                if own:
+                                    cls.fit = orig_fit
+                                else:
+                                    del cls.fit
+                            ret = holder.get("ret")
+                            real["opti_is_out"] = nz._opti is None
+                        elif route == "tools":
+                            dim = int(rng.randint(1, 3))
+                            pos = [rng.uniform(-1, 1, size=n) for _ in range(dim)]
+                            c = float(rng.choice([0.0, 0.25, -0.5]))
+                            a = rng.uniform(-0.2, 0.2, size=dim)
+                            tfun = lambda *p_: c + sum(ai * np.asarray(pi, dtype=float) for ai, pi in zip(a, p_))
+                            tval = [None, c, tfun][int(rng.randint(0, 3))]
+                            trend = np.zeros(n) if tval is None else (np.full(n, c) if not callable(tval) else tfun(*pos))
+                            mean = float(rng.choice([0.0, 0.5]))
+                            nz = cls(**given)
+                            holder["nz"] = nz
+                            fld = data + trend
+                            data_in = fld - trend     # what the code computes: field -= trend
+                            res = remove_trend_norm_mean(pos, fld, mean=mean, normalizer=nz, trend=tval, fit_normalizer=True)
+                            real["returned_same_object"] = res[1] is nz
+                            real["field"] = np.array(res[0], dtype=float)
+                            real["mean"], real["fld"] = mean, fld
+                            ret = None
+                            data = data_in
+                            real["opti_is_out"] = (nz._opti is stub.calls[-1]["out"]) if stub.calls else True
+                        else:
+                            dim = int(rng.randint(1, 3))
+                            pos = [rng.uniform(-1, 1, size=n) for _ in range(dim)]
+                            c = float(rng.choice([0.0, 0.25, -0.5]))
+                            tval = [None, c][int(rng.randint(0, 2))]
+                            trend = np.zeros(n) if tval is None else np.full(n, c)
+                            mean = float(rng.choice([0.0, 0.5]))
+                            nz = cls(**given)
+                            holder["nz"] = nz
+                            fld = data + trend
+                            data = fld - trend
+                            kr = gs.krige.Krige(gs.Gaussian(dim=dim, var=0.5, len_scale=1.0), pos, fld, mean=mean,
+                                                normalizer=nz, trend=tval, unbiased=False, fit_normalizer=True)
+                            real["returned_same_object"] = kr.normalizer is nz
+                            real["field"] = np.array(kr._krige_cond, dtype=float)[:n]
+                            real["mean"], real["fld"] = mean, fld
+                            ret = None
+                            real["opti_is_out"] = (nz._opti is stub.calls[-1]["out"]) if stub.calls else True
+                real["warned"] = any("no parameters" in str(w.message) for w in wlist)
+            except Exception as ex:
+                dis.append(dict(what=f"fit:{route}:exception", detail=f"{type(ex).__name__}: {ex}", **case))
+                continue
+            real["ret"] = ret
+            real["attrs"] = [float(getattr(nz, k)) for k in allnames]
+            real["calls"] = [dict(c_) for c_ in stub.calls]
+            real["nz"] = nz
+            op = dict(op="norm_fit", names=decl, values=fbits(defaults), skip=sk_list,
+                      given_names=[k for k in given], given_values=fbits([given[k] for k in given]),
+                      trials=[fbits(t) for t in trials], x=fbits(x))
+            if "bracket" in kw:
+                op["bracket"] = fbits(kw["bracket"])
+            if "x0" in kw:
+                op["x0"] = fbits(kw["x0"])
+            if kind != "user":
+                op.update(kind=kind, data=fbits(data + trend if route in ("tools", "krige") else data), trend=fbits(trend))
+            ops.append(op)
+            meta.append((case, kind, allnames, free, data, kw, real))
+    finally:
+        nb.spo = orig
+    res = run_driver(ops)
+    pipe_ops, pipe_meta = [], []
+    for (case, kind, allnames, free, data, kw, real), r in zip(meta, res):
+        if isinstance(r, dict) and "error" in r:
+            dis.append(dict(what="driver error fit", detail=r["error"], **case))
+            continue
+        out["evaluations"] += 1
+        route = case["route"]
+        key = f"fit:{route}:{kind}:free={len(free)}/{len(allnames)}"
+        dist[key] = dist.get(key, 0) + 1
+        out["keys"].add((key, tuple(case["skip"] or ()), tuple(case["names"]), tuple(sorted(case["given"])), len(case["trials"]),
+                         tuple(sorted(kw))))
+        bad = []
+        if r["all"] != allnames:
+            bad.append(("sorted names", allnames, r["all"]))
+        m_attrs = unbits(r["attrs"])
+        if fbits(real["attrs"]) != r["attrs"]:
+            bad.append(("parameters after the call", real["attrs"], m_attrs.tolist()))
+        calls = real["calls"]
+        m_route = int(r["route"])
+        if (calls[0]["route"] if calls else 0) != m_route or len(calls) > 1:
+            bad.append(("optimiser called", [c_["route"] for c_ in calls], m_route))
+        if route in ("fit", "init"):
+            ret = real["ret"]
+            if not isinstance(ret, dict):
+                bad.append(("returned value", repr(ret), "dict"))
+            else:
+                if list(ret) != r["ret_names"]:
+                    bad.append(("returned names", list(ret), r["ret_names"]))
+                elif fbits([float(ret[k]) for k in ret]) != r["ret_values"]:
+                    bad.append(("returned values", [float(ret[k]) for k in ret], unbits(r["ret_values"]).tolist()))
+        if real["warned"] != bool(r["warned"]):
+            bad.append(("'no parameters' warning", real["warned"], bool(r["warned"])))
+        if not real["opti_is_out"]:
+            bad.append(("_opti", "not the optimiser's result", "the optimiser's result (None after __init__)"))
+        if real.get("returned_same_object") is False:
+            bad.append(("fitted normalizer", "another object", "the object handed in"))
+        if calls and m_route == calls[0]["route"]:
+            c_ = calls[0]
+            k_ = dict(c_["kw"])
+            if m_route == 1:
+                br = k_.pop("bracket", None)
+                if br is None or fbits(br) != r["bracket"]:
+                    bad.append(("bracket handed to minimize_scalar", br, None if r["bracket"] is None else unbits(r["bracket"]).tolist()))
+            else:
+                x0 = k_.pop("x0", None)
+                if x0 is None or fbits(x0) != r["x0"]:
+                    bad.append(("x0 handed to minimize", x0, None if r["x0"] is None else unbits(r["x0"]).tolist()))
+            want_kw = {k: v for k, v in kw.items() if k not in ("bracket", "x0")}
+            if k_ != want_kw:
+                bad.append(("other keyword arguments handed to the optimiser", k_, want_kw))
+            a_ = c_["args"]
+            if not (isinstance(a_, tuple) and len(a_) == 1 and np.asarray(a_[0]).size == data.size
+                    and np.array_equal(np.asarray(a_[0], dtype=float).ravel(), data.ravel(), equal_nan=True)):
+                bad.append(("data handed to the objective", "differs", "the (detrended) data"))
+            seen_real = [fbits(s_) for s_ in c_["states"]]
+            if seen_real != r["seen"]:
+                bad.append(("parameters at the objective evaluations", c_["states"], [unbits(s_).tolist() for s_ in r["seen"]]))
+            elif kind != "user":
+                mobj = unbits(r["objective"])
+                for st, a, b in zip(c_["states"], c_["values"], mobj):
+                    par = dict(zip(allnames, st))
+                    l, sft = par.get("lmbda", 1.0), par.get("shift", 0.0)
+                    with warnings.catch_warnings(), np.errstate(all="ignore"):
+                        warnings.simplefilter("ignore")
+                        nz2 = make(kind, l, sft)
+                        d = nz2._check_input(data, nz2.normalize_range, False)
+                        scale = d.size * (abs(np.log(np.var(nz2._normalize(d)))) + np.max(np.abs(np.log(np.maximum(1e-16, nz2._derivative(d)))), initial=0.0) + 3.0) if d.size else 1.0
+                    t = 1e-12 * (scale if np.isfinite(scale) else 1.0) * (1 + 1 / lam_eff(kind, l))
+                    if np.isnan(a) or np.isnan(b) or np.isinf(a) or np.isinf(b):
+                        ok = (np.isnan(a) and np.isnan(b)) or a == b
+                    else:
+                        ok = abs(a - b) <= t
+                    out["elements"] += 1
+                    if not ok:
+                        bad.append(("objective value (-kernel_loglikelihood at the trial parameters)", a, float(b)))
+                        break
+        for (what, a, b) in bad[:2]:
+            dis.append(dict(what=f"fit:{route}:{what}", real=a, model=b, **case))
+        if len(out["samples"]) < 8 and kind == "BoxCoxShift" and route == "fit" and 0 < len(free) < 2 and case["trials"]:
+            out["samples"].append(dict(case=case, real=dict(attrs=real["attrs"], ret={k: float(v) for k, v in real["ret"].items()}),
+                                       model=dict(attrs=m_attrs.tolist(), ret=dict(zip(r["ret_names"], unbits(r["ret_values"]).tolist())))))
+        if route in ("tools", "krige") and kind != "user":
+            par = dict(zip(allnames, real["attrs"]))
+            l, sft = par.get("lmbda", 1.0), par.get("shift", 0.0)
+            pipe_ops.append(dict(op="norm_pipeline", kind=kind, lmbda=f2b(l), shift=f2b(sft), raw=fbits(real["fld"]),
+                                 mean=fbits(np.full(data.size, real["mean"])), trend=fbits(real["fld"] - data)))
+            pipe_meta.append((case, kind, l, real["field"]))
+    for (case, kind, l, fld), r in zip(pipe_meta, run_driver(pipe_ops)):
+        if isinstance(r, dict) and "error" in r:
+            dis.append(dict(what="driver error fit pipeline", detail=r["error"], **case))
+            continue
+        out["evaluations"] += 1
+        badi = cmp_arrays(kind, l, fld, unbits(r[2]))
+        if badi:
+            dis.append(dict(what=f"fit:{case['route']}:field normalised with the fitted parameters", index=badi[0], **case))
+
+
 def corr_isclose(ctx, rng, out):
     vals = special_lambdas() + [float(v) for v in rng.uniform(-1e-7, 1e-7, size=20)] + \
         [float(2 + v) for v in rng.uniform(-5e-5, 5e-5, size=20)] + [np.nan, np.inf, -np.inf]
@@ -374,6 +728,7 @@ def correspondence(ctx):
     corr_isclose(ctx, rng, out)
     corr_normalizers(ctx, rng, out)
     corr_pipeline(ctx, np.random.RandomState(ctx.seed + 1801), out)
+    corr_fit(ctx, np.random.RandomState(ctx.seed + 1802), out)
     keys = out.pop("keys")
     out["distribution"]["driver_ops"] = out["evaluations"]
     out["evaluations"] = max(out["evaluations"], out["elements"])   # one evaluation = one compared array element / scalar op
@@ -382,7 +737,13 @@ def correspondence(ctx):
                    "x {ranges+isclose flags (exact), normalize, denormalize, derivative (elementwise incl. NaN mask, +-inf, "
                    "boundaries, nextafter(boundary), out-of-range; warning flag), loglikelihood+kernel}; pipelines through "
                    "apply_mean_norm_trend/remove_trend_norm_mean, Field(field=raw), SRF post_process on/off, Krige._krige_cond "
-                   "with none/const/callable mean and trend, scalar/vector, structured/unstructured.  distinct = distinct "
+                   "with none/const/callable mean and trend, scalar/vector, structured/unstructured; Normalizer.fit / __init__(data=) / "
+                   "remove_trend_norm_mean(fit_normalizer=True) / Krige(fit_normalizer=True) with scipy.optimize of normalizer/base.py "
+                   "replaced by a scripted optimiser: 7 classes + user-defined subclasses with 1-4 arbitrarily named parameters x every "
+                   "subset of skipped names (+ unknown names, duplicates, tuple, None) x constructor keywords x caller bracket / x0 / tol "
+                   "x scripted trial vectors and result (sorted names, routine, kwargs and data handed over, parameters and objective "
+                   "value at every evaluation, parameters after the call, returned dict incl. order, warning, _opti: bit for bit).  "
+                   "distinct = distinct "
                    "(class, op, lmbda, shift, datum) resp. (route, mean/trend kind, value type, mesh, class, lmbda); "
                    f"{out.pop('elements')} array elements compared")
     out["disagreements"] = out["disagreements"][:20]
@@ -426,6 +787,363 @@ def mp_oracle(kind, l, s):
 def in_image_guard(kind, l, s, x, y, d):
     """well-conditioned for a Float round trip: no saturation, derivative and values of moderate size"""
     return np.isfinite(y) and np.isfinite(d) and 1e-6 < d < 1e6 and abs(y) < 1e6 and abs(x) < 1e6
+
+
+# ------------------------------------------------------------------------------------------ search: fitting
+LOG2PI = float(np.log(2 * np.pi))
+
+
+def ml_oracle(kind, par, x):
+    """independent re-implementation of the maximum-likelihood definition: Gaussian log-likelihood of the transformed
+    data with mean and (population) variance profiled out, plus the log-Jacobian, from the documented formulas
+    (plain log / power / exp; the limit form exactly where the class documents it, np.isclose).  -inf when a datum
+    is outside the domain of the transformation."""
+    x = np.asarray(x, dtype=float)
+    lam, sh = float(par.get("lmbda", 1.0)), float(par.get("shift", 0.0))
+    z0, z2 = bool(np.isclose(lam, 0)), bool(np.isclose(lam, 2))
+
+    def bc(u, lm, lim):
+        return np.log(u) if lim else (np.power(u, lm) - 1.0) / lm
+    with np.errstate(all="ignore"):
+        if kind == "Normalizer":
+            y, lj = x, np.zeros_like(x)
+        elif kind == "LogNormal":
+            if (x <= 0).any():
+                return -np.inf
+            y, lj = np.log(x), -np.log(x)
+        elif kind in ("BoxCox", "BoxCoxShift"):
+            u = x + (sh if kind == "BoxCoxShift" else 0.0)
+            if (u <= 0).any():
+                return -np.inf
+            y, lj = bc(u, lam, z0), (lam - 1) * np.log(u)
+        elif kind == "YeoJohnson":
+            pos = x >= 0
+            y, lj = np.empty_like(x), np.empty_like(x)
+            y[pos], lj[pos] = bc(x[pos] + 1, lam, z0), (lam - 1) * np.log(x[pos] + 1)
+            y[~pos], lj[~pos] = -bc(1 - x[~pos], 2 - lam, z2), (1 - lam) * np.log(1 - x[~pos])
+        elif kind == "Modulus":
+            y, lj = np.sign(x) * bc(np.abs(x) + 1, lam, z0), (lam - 1) * np.log(np.abs(x) + 1)
+        elif kind == "Manly":
+            y, lj = (x.copy() if z0 else (np.exp(lam * x) - 1) / lam), lam * x
+        else:
+            raise ValueError(kind)
+        v = np.mean((y - np.mean(y)) ** 2)
+        out = float(-0.5 * x.size * (LOG2PI + np.log(v) + 1) + np.sum(lj))
+    return out if np.isfinite(out) else -np.inf
+
+
+def ml_class(kind, par, x):
+    """the same definition evaluated with the class's own public normalize / derivative on a fresh instance"""
+    from scipy.stats import norm as gauss
+    nz = make(kind, par.get("lmbda", 1.0), par.get("shift", 0.0))
+    with warnings.catch_warnings(), np.errstate(all="ignore"):
+        warnings.simplefilter("ignore")
+        y, d = nz.normalize(x), nz.derivative(x)
+        if np.isnan(y).any() or np.isnan(d).any():
+            return -np.inf
+        mu = float(np.mean(y))
+        sd = float(np.sqrt(np.mean((y - mu) ** 2)))
+        out = float(np.sum(gauss.logpdf(y, mu, sd)) + np.sum(np.log(d)))
+    return out if np.isfinite(out) else -np.inf
+
+
+def golden_max(f, a, b, iters=60):
+    g = (np.sqrt(5.0) - 1) / 2
+    c, d = b - g * (b - a), a + g * (b - a)
+    fc, fd = f(c), f(d)
+    for _ in range(iters):
+        if fc > fd:
+            b, d, fd = d, c, fc
+            c = b - g * (b - a)
+            fc = f(c)
+        else:
+            a, c, fc = c, d, fd
+            d = a + g * (b - a)
+            fd = f(d)
+    return (c, fc) if fc > fd else (d, fd)
+
+
+def brute_max(f, lo, hi, n):
+    """dense grid + golden-section refinement around the best grid point; returns (argmax, max, best is at an end)"""
+    g = np.linspace(lo, hi, n)
+    v = np.array([f(t) for t in g])
+    i = int(np.argmax(v))
+    t, ft = golden_max(f, g[max(i - 1, 0)], g[min(i + 1, n - 1)])
+    if not ft >= v[i]:
+        t, ft = float(g[i]), float(v[i])
+    return float(t), float(ft), i in (0, n - 1)
+
+
+def fit_data(rng, kind):
+    """samples whose maximum-likelihood transformation is not trivial: several shapes per class"""
+    n = int(rng.choice([25, 40, 80, 150]))
+    c = int(rng.randint(0, 5))
+    if kind in ("BoxCox", "LogNormal", "BoxCoxShift"):
+        x = [np.exp(rng.normal(0.3, 0.5, n)), rng.gamma(2.0, 1.0, n) + 0.05, rng.weibull(1.5, n) + 0.1,
+             3 + rng.normal(0, 0.6, n).clip(-2.5), rng.uniform(0.5, 4, n) ** 2][c]
+        if kind == "BoxCoxShift":
+            x = x - float(rng.choice([0.0, 1.5, -2.0]))
+    elif kind == "Manly":
+        x = [rng.gamma(2.0, 1.0, n) / 2 - 0.5, rng.normal(0, 0.7, n), np.log(rng.gamma(3, 1, n)),
+             rng.uniform(-1, 1, n) ** 3 * 2, -rng.weibull(1.5, n) + 0.5][c]
+    else:
+        x = [rng.gamma(2.0, 1.0, n) - 1.0, rng.normal(0.5, 1.5, n), np.exp(rng.normal(0, 0.7, n)) - 1.5,
+             -rng.gamma(2, 1.5, n) + 1, rng.standard_t(5, n)][c]
+    return np.asarray(x, dtype=float)
+
+
+def check_fit_result(kind, names, before, nz, ret, skip, x, add, case, stats, rng, n_grid=221):
+    """(a) skipped parameters untouched, (b) returned dict == object, the object holds the optimiser's result,
+    (c) the fitted parameters maximise the documented log-likelihood over the free parameters"""
+    sk = [] if skip is None else list(skip)
+    free = [k for k in names if k not in sk]
+    tag = "free-" + ("+".join(free) if free else "none")
+    after = {k: getattr(nz, k) for k in names}
+    for k in names:
+        if k not in free and f2b(after[k]) != f2b(before[k]):
+            add(f"api:{kind}:fit:skipped-parameter-changed", f"fit(skip={sk}) changed the skipped parameter {k}",
+                dict(before=float(before[k]), after=float(after[k]), **case))
+    if not free:
+        if ret != {}:
+            add(f"api:{kind}:fit:return-without-free-parameters", "fit() without free parameters does not return {}", case)
+        return
+    if not isinstance(ret, dict) or list(ret) != names or any(f2b(ret[k]) != f2b(after[k]) for k in names):
+        add(f"api:{kind}:fit:returned-dict", "fit() does not return the object's parameters by name",
+            dict(returned={k: float(v) for k, v in ret.items()} if isinstance(ret, dict) else repr(ret),
+                 object={k: float(v) for k, v in after.items()}, **case))
+    op = nz._opti
+    if op is None or fbits(np.atleast_1d(op.x)) != fbits([after[k] for k in free]):
+        add(f"api:{kind}:fit:result-not-stored", "the fitted parameters are not the optimiser's result x",
+            dict(opti_x=None if op is None else np.atleast_1d(op.x).tolist(), object={k: float(v) for k, v in after.items()}, **case))
+    par = {k: float(after[k]) for k in names}
+    fin = all(np.isfinite(v) for v in par.values())
+    stats["fits"] += 1
+    if not fin:
+        stats["nonfinite"] += 1
+        add(f"api:{kind}:fit:{tag}:nonfinite-parameter", "fit() returned without error and left a non-finite parameter in the object",
+            dict(fitted=par, **case))
+        return
+    lo, _ = [float(v) for v in nz.normalize_range]
+    if np.isfinite(lo) and not (x > lo).all():
+        stats["data_out_of_range"] += 1
+        add(f"api:{kind}:fit:{tag}:data-out-of-range-at-optimum", "at the fitted parameters part of the data is outside "
+            "normalize_range (the objective silently drops such data: the 'optimum' is that of a subset)",
+            dict(fitted=par, n_out=int((x <= lo).sum()), **case))
+        return
+    if not bool(getattr(op, "success", True)):
+        stats["optimiser_failed"] += 1       # reported by scipy in the result object; maximality is not claimed then
+        return
+    # guard: the comparison needs a regime in which a maximum-likelihood estimate can exist and double arithmetic
+    # resolves the likelihood: exponents as in the brute-force window, shift at a distance from the singular end
+    # -min(x) comparable with the spread of the data (three-parameter families have their supremum at infinity /
+    # at the singular end for many samples; an optimiser run that wanders there is not a statement about fit())
+    xmin, spread = float(np.min(x)), float(np.ptp(x))
+    if ("lmbda" in free and not abs(par["lmbda"]) <= 6.0) or \
+            ("shift" in free and not 1e-4 * spread <= par["shift"] + xmin <= 1e3 * spread):
+        stats["outside_window"] += 1
+        return
+    checked = False
+    for oname, orc in (("definition", ml_oracle), ("class-formulas", ml_class)):
+        l_fit = orc(kind, par, x)
+        tol = 1e-9 * (1 + abs(l_fit)) if len(free) == 1 else 1e-6 * (1 + abs(l_fit))
+        # global along a single free parameter: dense grid + golden section
+        if len(free) == 1:
+            k = free[0]
+            if k == "lmbda":
+                rlo, rhi = -6.0, 8.0
+            else:
+                dist = par[k] + xmin
+                rlo, rhi = -xmin + 1e-3 * dist, par[k] + 4 * dist
+            f = lambda t: orc(kind, dict(par, **{k: float(t)}), x)
+            t_ref, l_ref, at_end = brute_max(f, rlo, rhi, n_grid)
+            if k == "shift" and (at_end or f(rhi) >= l_ref - 100 * tol):
+                # no maximum-likelihood shift exists: the likelihood keeps growing (or is flat to rounding) towards
+                # shift -> inf (the transformation degenerates to an affine map) or towards the singular end
+                stats["no_interior_maximum"] += 1
+                continue
+            checked = True
+            if l_ref > l_fit + tol:
+                add(f"api:{kind}:fit:{tag}:not-maximum-likelihood", f"the fitted {k} does not maximise the log-likelihood ({oname}): "
+                    "brute force finds a larger value", dict(fitted=par, loglik=l_fit, ref=t_ref, ref_loglik=l_ref, **case))
+                continue
+        # local: no neighbour along the free coordinates (and diagonals) is better
+        checked = True
+        steps = []
+        for d in (1e-3, 1e-2):
+            for sg in ([(1,), (-1,)] if len(free) == 1 else [(1, 0), (-1, 0), (0, 1), (0, -1), (1, 1), (1, -1), (-1, 1), (-1, -1)]):
+                steps.append([d * v for v in sg])
+        best, arg = l_fit, None
+        for st in steps:
+            q = dict(par)
+            for k, dv in zip(free, st):
+                q[k] = par[k] + dv * ((par[k] + xmin) if k == "shift" else 1.0)
+            v = orc(kind, q, x)
+            if v > best:
+                best, arg = v, q
+        if best > l_fit + tol:
+            add(f"api:{kind}:fit:{tag}:not-a-local-maximum", f"a neighbouring parameter value has a larger log-likelihood ({oname})",
+                dict(fitted=par, loglik=l_fit, better=arg, better_loglik=best, **case))
+    stats["ml_checked"] += int(checked)
+    if checked:
+        stats["ml_checked:" + tag] = stats.get("ml_checked:" + tag, 0) + 1
+
+
+def search_fit(ctx, rng, add, deep):
+    """real optimiser: every class x every subset of skipped names x start parameters x optimiser keyword arguments,
+    plus the constructor (`data=`), remove_trend_norm_mean(fit_normalizer=True) and Krige(fit_normalizer=True)"""
+    import gstools as gs
+    import gstools.normalizer as N
+    from gstools.normalizer import remove_trend_norm_mean
+    stats = dict(fits=0, ml_checked=0, optimiser_failed=0, nonfinite=0, data_out_of_range=0, no_interior_maximum=0, outside_window=0)
+    ev = 0
+    reps = ctx.scale(3, 20) * (2 if deep else 1)
+
+    def run(fn):
+        with warnings.catch_warnings(record=True) as w:
+            warnings.simplefilter("always")
+            with np.errstate(all="ignore"):
+                r = fn()
+        return r, [str(m.message) for m in w]
+
+    for rep in range(reps):
+        for kind in KINDS:
+            cls = getattr(N, kind)
+            names = sorted(DOC_PARAMS[kind])
+            x = fit_data(rng, kind if kind != "Normalizer" else "YeoJohnson")
+            subsets = [[n for i, n in enumerate(names) if m >> i & 1] for m in range(2 ** len(names))]
+            variants = [(sub, {}) for sub in subsets] + [(None, {})]
+            for sub in subsets:
+                free = [k for k in names if k not in sub]
+                if free == ["shift"]:
+                    d0 = float(rng.choice([0.3, 1.0, 3.0]))
+                    variants.append((sub, dict(bracket=(-float(x.min()) + d0, -float(x.min()) + 1.5 * d0))))
+                elif free == ["lmbda"]:
+                    variants.append((sub + ["unknown"], dict(bracket=(0.0, 1.0))))
+                    variants.append((tuple(sub), dict(method="bounded", bounds=(-3.0, 4.0))))
+                elif len(free) == 2:
+                    variants.append((sub, dict(method="Nelder-Mead")))
+            for skip, kw in variants:
+                start = {}
+                if "lmbda" in names:
+                    start["lmbda"] = float(rng.choice([1.0, 0.0, 0.5, -0.5, 2.0, float(rng.uniform(-1, 2.5))]))
+                if "shift" in names:
+                    start["shift"] = float(-x.min() + rng.choice([0.3, 1.0, 3.0]))
+                nz = cls(**start)
+                before = {k: getattr(nz, k) for k in names}
+                case = dict(kind=kind, start=start, skip=None if skip is None else list(skip), kwargs={k: (list(v) if isinstance(v, tuple) else v) for k, v in kw.items()},
+                            data=x.tolist())
+                try:
+                    ret, msgs = run(lambda: nz.fit(x, **({} if skip is None else {"skip": skip}), **kw))
+                except Exception as ex:
+                    add(f"api:{kind}:fit:exception", f"{type(ex).__name__}: {ex}", case)
+                    continue
+                ev += 1
+                free = [k for k in names if k not in (skip or [])]
+                if (not free) != any("no parameters" in m for m in msgs):
+                    add(f"api:{kind}:fit:no-parameters-warning", "the 'no parameters' warning does not match the set of free parameters", case)
+                check_fit_result(kind, names, before, nz, ret, skip, x, add, case, stats, rng)
+        # --- three-parameter samples with an interior maximum: x = denormalize(N(mu, sd)) of a BoxCoxShift, exponent fixed
+        #     at the truth and the shift fitted from a bracket near it / both fitted from a start near the truth
+        for _ in range(2):
+            lam = float(rng.choice([0.0, 2.0, -0.5, 0.5, 1.5, float(rng.uniform(-0.7, 2))]))
+            sh = float(rng.choice([1.5, 1.0, 0.0, -2.0]))
+            sd = min(float(rng.uniform(0.2, 0.7)), 0.25 if lam < 0 else 1.0)
+            mu = 1.0 if lam == 0 else (3.0 if lam > 0 else 0.5)
+            z = rng.normal(mu, sd, int(rng.choice([200, 500])))
+            x, _ = run(lambda: N.BoxCoxShift(lmbda=lam, shift=sh).denormalize(z))
+            if not np.isfinite(x).all():
+                continue
+            names = ["lmbda", "shift"]
+            for mode in ("shift", "both", "both-nm", "lmbda"):
+                if mode == "shift":
+                    start, skip, kw = dict(lmbda=lam, shift=0.3 - float(x.min())), ["lmbda"], dict(bracket=(sh + 0.5, sh + 1.0))
+                elif mode == "lmbda":
+                    start, skip, kw = dict(lmbda=1.0, shift=sh), ["shift"], {}
+                else:
+                    start = dict(lmbda=lam + float(rng.uniform(-0.2, 0.2)), shift=sh + float(rng.uniform(-0.1, 0.3)))
+                    skip, kw = [], (dict(method="Nelder-Mead") if mode == "both-nm" else {})
+                nz = N.BoxCoxShift(**start)
+                case = dict(kind="BoxCoxShift", start=start, skip=skip, kwargs={k: (list(v) if isinstance(v, tuple) else v) for k, v in kw.items()},
+                            truth=dict(lmbda=lam, shift=sh, mu=mu, sd=sd), data=x.tolist())
+                try:
+                    ret, msgs = run(lambda: nz.fit(x, skip=skip, **kw))
+                except Exception as ex:
+                    add("api:BoxCoxShift:fit:exception", f"{type(ex).__name__}: {ex}", case)
+                    continue
+                ev += 1
+                check_fit_result("BoxCoxShift", names, start, nz, ret, skip, x, add, case, stats, rng)
+        # --- the other entry points: same result as fit() on a fresh object with the detrended data
+        for kind in KINDS[1:]:
+            if kind == "BoxCoxShift" and rep % 2:
+                continue
+            cls = getattr(N, kind)
+            names = sorted(DOC_PARAMS[kind])
+            x = fit_data(rng, kind)
+            n = x.size
+            start = {}
+            if "lmbda" in names:
+                start["lmbda"] = float(rng.choice([1.0, 0.5, 0.0]))
+            if "shift" in names:
+                start["shift"] = float(-x.min() + 1.0)
+            dim = int(rng.randint(1, 3))
+            pos = [rng.uniform(0, 3, size=n) for _ in range(dim)]
+            c = float(rng.uniform(-0.3, 0.3))
+            a = rng.uniform(-0.1, 0.1, size=dim)
+            lin = lambda *p_: c + sum(ai * np.asarray(pi, dtype=float) for ai, pi in zip(a, p_))
+            tval, tcell = [(None, np.zeros(n)), (c, np.full(n, c)), (lin, lin(*pos))][int(rng.randint(0, 3))]
+            mean = float(rng.choice([0.0, 0.4]))
+            fld = x + tcell
+            det = fld - tcell
+            case = dict(kind=kind, start=start, dim=dim, trend=type(tval).__name__, mean=mean, data=fld.tolist())
+            try:
+                ref = cls(**start)
+                ref_ret, _ = run(lambda: ref.fit(det))
+                want = {k: getattr(ref, k) for k in names}
+                # constructor
+                (nz0, msgs) = run(lambda: cls(det, **start))
+                got0 = {k: getattr(nz0, k) for k in names}
+                # tools
+                nz1 = cls(**start)
+                (res1, _) = run(lambda: remove_trend_norm_mean(pos, fld, mean=mean, normalizer=nz1, trend=tval, fit_normalizer=True))
+                got1 = {k: getattr(nz1, k) for k in names}
+                # krige
+                nz2 = cls(**start)
+                (kr, _) = run(lambda: gs.krige.Krige(gs.Exponential(dim=dim, var=0.3, len_scale=1.0), pos, fld, mean=mean,
+                                                     normalizer=nz2, trend=tval, unbiased=False, fit_normalizer=True))
+                got2 = {k: getattr(nz2, k) for k in names}
+                # class handed over instead of an instance: fitted from the defaults
+                (kr3, _) = run(lambda: gs.krige.Krige(gs.Exponential(dim=dim, var=0.3, len_scale=1.0), pos, fld, mean=mean,
+                                                      normalizer=cls, trend=tval, unbiased=False, fit_normalizer=True))
+                ref3 = cls()
+                run(lambda: ref3.fit(det))
+                got3 = {k: getattr(kr3.normalizer, k) for k in names}
+                want3 = {k: getattr(ref3, k) for k in names}
+            except Exception as ex:
+                add(f"api:{kind}:fit-entry-points:exception", f"{type(ex).__name__}: {ex}", case)
+                continue
+            ev += 6
+            for label, got, w_ in (("constructor-data", got0, want), ("remove_trend_norm_mean", got1, want), ("Krige", got2, want),
+                                   ("Krige-class", got3, want3)):
+                if any(f2b(got[k]) != f2b(w_[k]) for k in names):
+                    add(f"api:{kind}:fit-normalizer:{label}", f"{label}: parameters differ from fit() on the detrended data with the same start",
+                        dict(got={k: float(v) for k, v in got.items()}, want={k: float(v) for k, v in w_.items()}, **case))
+            if res1[1] is not nz1 or kr.normalizer is not nz2:
+                add(f"api:{kind}:fit-normalizer:object", "the fitted normalizer is not the object handed in", case)
+            with warnings.catch_warnings(), np.errstate(all="ignore"):
+                warnings.simplefilter("ignore")
+                oracle = make(kind, want.get("lmbda", 1.0), want.get("shift", 0.0))
+                wantf = oracle.normalize(det) - mean
+            if not np.allclose(res1[0], wantf, rtol=1e-13, atol=1e-13, equal_nan=True):
+                add(f"api:{kind}:fit-normalizer:field", "remove_trend_norm_mean(fit_normalizer=True) field != normalize(field - trend) - mean "
+                    "with the fitted parameters", case)
+            with warnings.catch_warnings(), np.errstate(all="ignore"):
+                warnings.simplefilter("ignore")
+                kcond = np.array(kr._krige_cond)[:n]
+            if not np.allclose(kcond, wantf, rtol=1e-13, atol=1e-13, equal_nan=True):
+                add(f"api:{kind}:fit-normalizer:krige-cond", "Krige(fit_normalizer=True) conditions != normalize(cond - trend) - mean "
+                    "with the fitted parameters", case)
+            check_fit_result(kind, names, start, ref, ref_ret, None, det, add, dict(case, entry="reference fit"), stats, rng)
+    return ev, stats
 
 
 def search(ctx, deep=False):
@@ -607,6 +1325,9 @@ def search(ctx, deep=False):
                         if other > ll + 1e-10 * sc:
                             add(f"api:{kind}:loglikelihood-not-profile-max", "another (mu, sigma) beats the reported loglikelihood",
                                 dict(data=dat.tolist(), ll=ll, other=other, mu=mu2, sd=sd2, **case0))
+    # --- fit: bookkeeping (skip, returned dict, stored result) and maximum likelihood against two independent oracles
+    ev_fit, fit_stats = search_fit(ctx, np.random.RandomState(ctx.seed + 1810), add, deep)
+    ev += ev_fit
     # --- fit: result is a local maximum of the log-likelihood (sanity only)
     nfit = ctx.scale(4, 25)
     for kind in ("BoxCox", "YeoJohnson", "Modulus", "Manly"):
@@ -739,6 +1460,13 @@ def search(ctx, deep=False):
     return {"evaluations": ev, "violations": viol,
             "summary": f"{ev} real-API evaluations: round trips, range image, monotone grids, derivative vs FD and mpmath formula, "
                        f"masking probes, likelihood vs scipy.stats Gaussian + profile maximality, fit local max, SRF/Krige pipelines; "
+                       f"fit(): {fit_stats['fits']} real fits over every class x every subset of skipped names x start values x optimiser "
+                       f"keyword arguments + constructor data= / remove_trend_norm_mean / Krige fit_normalizer (skipped parameters "
+                       f"bit-identical, returned dict == object == optimiser result), {fit_stats['ml_checked']} of them compared with "
+                       f"brute-force maximum likelihood (independent definition and class formulas; optimiser reported failure "
+                       f"{fit_stats['optimiser_failed']}x, non-finite parameter {fit_stats['nonfinite']}x, data out of range at the optimum "
+                       f"{fit_stats['data_out_of_range']}x, likelihood without interior maximum in the shift {fit_stats['no_interior_maximum']}x, fitted "
+                       f"values outside the comparison window |lmbda|<=6, shift+min(x) in [1e-4, 1e3] x spread {fit_stats['outside_window']}x); "
                        f"{len(viol)} violations; observation: {obs['declared_range_wider_than_image']} YeoJohnson/Modulus parameter "
                        f"sets whose declared denormalize_range (-inf, inf) is wider than the image (witness lmbda=-1, y=2 -> "
                        f"{w1}, back {w2:.6g}); in-band derivative witness Manly(1e-9).derivative(1)={w3!r} vs slope {w4!r}; "
